@@ -242,9 +242,11 @@ def oracle(ctx, hints, effort):
             r = None
         except Exception as e:  # noqa
             from smrt.core.error import SMRTError
-            if not isinstance(e, SMRTError):
-                raise
             r = None
+            if not isinstance(e, SMRTError):
+                key = f"exception:{type(e).__name__}"
+                findings.setdefault(key, Finding(key, f"active run at incidence angles {thetas} raises {type(e).__name__}: {str(e)[:120]}",
+                                                 {"kind": "reciprocity", "scene": sc, "thetas": thetas}, type(e).__name__, "values (or SMRTError)"))
         if r:
             key = f"{r[0]}:{em}:strong"
             findings.setdefault(key, Finding(key, r[0] + f" in a strongly scattering {em} medium", {"kind": "reciprocity", "scene": sc, "thetas": thetas}, r[1], r[2]))
